@@ -75,6 +75,10 @@ def registry(g):
         add(f"cummul[{k}]", lambda k=k: (pp.cummul, (G(k, 5, g=g),), {"dim": 0}))
         add(f"cumops[{k}]", lambda k=k: (pp.cumops, (G(k, 5, g=g), 0, lambda a_, b_: a_ @ b_), {}))
         add(f"LieTensor.cumprod[{k}]", lambda k=k: (lambda X: X.cumprod(0, left=False), (G(k, 6, g=g),), {}))
+        add(f"LieTensor.cumprod[left][{k}]", lambda k=k: (lambda X: X.cumprod(0), (G(k, 4, g=g),), {}))
+        add(f"LieTensor.cummul[{k}]", lambda k=k: (lambda X: X.cummul(0, left=False), (G(k, 6, g=g),), {}))
+        add(f"LieTensor.cummul[left][{k}]", lambda k=k: (lambda X: X.cummul(0), (G(k, 4, g=g),), {}))
+        add(f"LieTensor.cumops[{k}]", lambda k=k: (lambda X: X.cumops(0, lambda a_, b_: b_ @ a_), (G(k, 5, g=g),), {}))
         add(f"identity_like[{k}]", lambda k=k: (pp.identity_like, (G(k, 3, g=g),), {}))
         add(f"randn_like[{k}]", lambda k=k: (pp.randn_like, (G(k, 3, g=g),), {}))
         add(f"from_matrix[{k}]", lambda k=k: (pp.from_matrix, (G(k, 3, g=g).matrix(),), {"ltype": lie.LT[k]}))
